@@ -620,9 +620,10 @@ def emit_slice(spec, log, vacuity=False):
     elif sel[0] == 'loopbody':
         hits = [lp for lp in find_loops(sf, it.body_open + 1, it.last)
                 if find_token_seq(sf, lp[0], lp[1], plain_texts(sel[1]))]
-        if len(hits) != 1:
-            raise ExtractError('%s: loop head `%s` matches %d loops (anchor lost)' % (spec.path, sel[1], len(hits)))
-        lo, hi = hits[0][1] + 1, m[hits[0][1]] - 1
+        kth, ntot = sel[2] if len(sel) > 2 else (1, 1)
+        if len(hits) != ntot:
+            raise ExtractError('%s: loop head `%s` matches %d loops, expected %d (anchor lost)' % (spec.path, sel[1], len(hits), ntot))
+        lo, hi = hits[kth - 1][1] + 1, m[hits[kth - 1][1]] - 1
         desc = 'body of the loop `%s ..`' % sel[1]
     elif sel[0] == 'body':
         lo, hi = it.body_open + 1, it.last - 1
@@ -640,11 +641,12 @@ def emit_slice(spec, log, vacuity=False):
         f_texts, t_texts = plain_texts(sel[1]), plain_texts(sel[2])
         fh = find_token_seq(sf, it.body_open + 1, it.last, f_texts)
         th = find_token_seq(sf, it.body_open + 1, it.last, t_texts)
-        if len(fh) != 1 or len(th) != 1:
-            raise ExtractError('%s: slice anchors match %d/%d sites (anchor lost)' % (spec.path, len(fh), len(th)))
-        lo = fh[0]
+        (fk, fn_), (tk, tn_) = (sel[3], sel[4]) if len(sel) > 4 else ((1, 1), (1, 1))
+        if len(fh) != fn_ or len(th) != tn_:
+            raise ExtractError('%s: slice anchors match %d/%d sites, expected %d/%d (anchor lost)' % (spec.path, len(fh), len(th), fn_, tn_))
+        lo = fh[fk - 1]
         # extend `to` to the end of its statement: next `;` at depth 0, or the closing brace of a block statement
-        k = th[0]
+        k = th[tk - 1]
         while True:
             tx = st[k].text
             if tx in OPEN:
@@ -861,15 +863,17 @@ def expand_fragment(frag_name, text, out_lines, regions, log, vacuity=False):
                 if ms:
                     opts['sel'] = ('closure', int(ms.group(1)))
                 else:
-                    ms = re.match(r'^stmts\s+<<(.*?)>>\s*\.\.\s*<<(.*?)>>$', selector.strip())
-                    ml = re.match(r'^loopbody\s+<<(.*?)>>$', selector.strip())
+                    ms = re.match(r'^stmts\s+<<(.*?)>>(?:#(\d+)/(\d+))?\s*\.\.\s*<<(.*?)>>(?:#(\d+)/(\d+))?$', selector.strip())
+                    ml = re.match(r'^loopbody\s+<<(.*?)>>(?:#(\d+)/(\d+))?$', selector.strip())
                     ma = re.match(r'^after\s+<<(.*?)>>$', selector.strip())
                     if selector.strip() == 'body':
                         opts['sel'] = ('body',)
                     elif ms:
-                        opts['sel'] = ('stmts', ms.group(1), ms.group(2))
+                        opts['sel'] = ('stmts', ms.group(1), ms.group(4),
+                                       (int(ms.group(2)), int(ms.group(3))) if ms.group(2) else (1, 1),
+                                       (int(ms.group(5)), int(ms.group(6))) if ms.group(5) else (1, 1))
                     elif ml:
-                        opts['sel'] = ('loopbody', ml.group(1))
+                        opts['sel'] = ('loopbody', ml.group(1), (int(ml.group(2)), int(ml.group(3))) if ml.group(2) else (1, 1))
                     elif ma:
                         opts['sel'] = ('afterstmt', ma.group(1))
                     else:
